@@ -346,3 +346,23 @@ Example C04_guard_protects :
   run_job (prog_q atlas4 (q_guarded p_nonzero p_inv) 1) [ev_zero] = JDone [[[VInt 1]]] /\
   run_job (prog_q atlas4 (q_guarded p_inv p_nonzero) 1) [ev_zero] = JAbort [] 0 FDivZero.
 Proof. vm_compute. split; reflexivity. Qed.
+
+(* a conditional evaluates only the arm its test selects (reference semantics of the fragment; the emitted job
+   implements it for every query by C01_query_job) *)
+Theorem C04_fragment_conditional_lazy :
+  forall (ev : event) (v : value) (c : pred) (a b : pa) (t : bool),
+  dpred ev v c = ROk t ->
+  dnat ev v (BIf c a b) = rbind (if t then dpa ev v a else dpa ev v b)
+                                (fun x => match conv "double" x with VUninit => RStuck (KUninit "conditional") | y => ROk y end).
+Proof. exact cond_lazy. Qed.
+Print Assumptions C04_fragment_conditional_lazy.
+
+(* non-vacuity: `1/pt if pt != 0 else 0` as a vector column on an event holding a jet with pt = 0: the job writes
+   [0, 1/4]; with the arms swapped into an unguarded division it aborts *)
+Definition q_cond (body : bexp) : query :=
+  {| q_filter := None; q_body := QRow [("v", ColVec jets4 GNone body)] |}.
+Example C04_conditional_protects :
+  run_job (prog_q atlas4 (q_cond (BIf p_nonzero (PDiv (PInt 1) (PMeth "pt")) (PInt 0))) 1) [ev_zero] =
+    JDone [[[VVec [VDbl (QArith_base.inject_Z 0); VDbl (QArith_base.Qmake 1 4)]]]] /\
+  run_job (prog_q atlas4 (q_cond (BPa (PDiv (PInt 1) (PMeth "pt")))) 1) [ev_zero] = JAbort [] 0 FDivZero.
+Proof. vm_compute. split; reflexivity. Qed.
